@@ -43,7 +43,13 @@ def r_init(run, tree):
     iof.check_reader_initialize(run, tree)
 
 
-RULES = [r_init, r1_r2, r3, r4_r5, r6]
+def r8_fresh_pieces(run, tree):
+    run.rule("C14.R8", "a reload returns each particle once: every (re)initialisation of a reader starts each variable from empty pieces (shared with C04/C12/C13/C15)",
+             "D7 fold of Reader.descriptor_to_variables with records of a previous load present", "", floor=3)
+    iof.check_descriptor_to_variables(run, tree)
+
+
+RULES = [r_init, r1_r2, r3, r4_r5, r6, r8_fresh_pieces]
 
 
 def t_part_space(run, tree):
